@@ -5,8 +5,9 @@ mod aik;
 mod c03;
 mod c04;
 mod c05;
-mod c10;
+mod c07;
 mod c08;
+mod c10;
 mod c11;
 mod c12;
 mod c13;
@@ -105,6 +106,8 @@ fn main() {
         "c10-eval" => c10::eval(&ctx),
         "c10-gate" => c10::gate(&ctx),
         "c04-builtin" => c04::run(&ctx),
+        "c07-check" => c07::check(&ctx),
+        "c07-run" => c07::rt::run(&ctx),
         other => {
             eprintln!("unknown sub-command {other}");
             std::process::exit(2);
